@@ -85,12 +85,12 @@ func vpReplyBytes(r *RPCReply) []byte {
 
 type vpBuf struct{ bytes.Buffer }
 
-func (b *vpBuf) u32(v uint32) *vpBuf     { xdrEncodeUint32(&b.Buffer, v); return b }
-func (b *vpBuf) u64(v uint64) *vpBuf     { xdrEncodeUint64(&b.Buffer, v); return b }
-func (b *vpBuf) fh(h uint64) *vpBuf      { xdrEncodeFileHandle(&b.Buffer, h); return b }
-func (b *vpBuf) str(s string) *vpBuf     { xdrEncodeString(&b.Buffer, s); return b }
-func (b *vpBuf) opaque(p []byte) *vpBuf  { xdrEncodeString(&b.Buffer, string(p)); return b }
-func (b *vpBuf) raw(p []byte) *vpBuf     { b.Buffer.Write(p); return b }
+func (b *vpBuf) u32(v uint32) *vpBuf    { xdrEncodeUint32(&b.Buffer, v); return b }
+func (b *vpBuf) u64(v uint64) *vpBuf    { xdrEncodeUint64(&b.Buffer, v); return b }
+func (b *vpBuf) fh(h uint64) *vpBuf     { xdrEncodeFileHandle(&b.Buffer, h); return b }
+func (b *vpBuf) str(s string) *vpBuf    { xdrEncodeString(&b.Buffer, s); return b }
+func (b *vpBuf) opaque(p []byte) *vpBuf { xdrEncodeString(&b.Buffer, string(p)); return b }
+func (b *vpBuf) raw(p []byte) *vpBuf    { b.Buffer.Write(p); return b }
 
 type vpSattr struct {
 	setMode, setUID, setGID, setSize bool
@@ -247,11 +247,12 @@ var _ = time.Second
 // ---- generic well-formed requests with symbolic fields
 
 type vpGen struct {
-	handles []uint64 // live handle values to choose from
-	names   []string // names to choose from
-	wild    bool     // also allow an arbitrary handle value / arbitrary short name
-	maxData int      // WRITE payload bound
-	fixed   bool     // no choices: first handle, first name, the all-fields sattr3
+	handles  []uint64 // live handle values to choose from
+	names    []string // names to choose from
+	wild     bool     // also allow an arbitrary handle value / arbitrary short name
+	wildName int      // longest arbitrary name (0 = 2 bytes, -1 = names from the menu only)
+	maxData  int      // WRITE payload bound
+	fixed    bool     // no choices: first handle, first name, the all-fields sattr3
 }
 
 func (g *vpGen) fh(tag string) uint64 {
@@ -276,12 +277,16 @@ func (g *vpGen) name(tag string) string {
 	}
 	n := len(g.names)
 	hi := n - 1
-	if g.wild {
+	if g.wild && g.wildName >= 0 {
 		hi = n
 	}
 	k := vpChoose(tag, 0, hi)
 	if k == n {
-		return vpStr(tag+".wild", vpChoose(tag+".wildlen", 1, 2))
+		max := g.wildName
+		if max == 0 {
+			max = 2
+		}
+		return vpStr(tag+".wild", vpChoose(tag+".wildlen", 1, max))
 	}
 	return g.names[k]
 }
